@@ -32,6 +32,25 @@ type c05Token struct {
 	fanout    []*c05Token // tokens this one pushes to the global queue from inside its turn
 	disp      *dispatcher
 	fanoutSent atomic.Bool
+	localFanout bool         // fan out through worker.reschedule (local ring) instead of the global queue
+	barrier    *c05Barrier   // rendezvous: the turn waits until all members are running at once
+}
+
+// c05Barrier is a rendezvous of k tokens: it can only complete when k workers run
+// k tokens at the same time, i.e. when no worker stayed parked while externally
+// pushed work was queued.
+type c05Barrier struct {
+	need    int32
+	arrived atomic.Int32
+	failed  atomic.Bool
+}
+
+func (b *c05Barrier) wait() {
+	b.arrived.Add(1)
+	ok := verifrt.WaitUntil(20*time.Second, func() bool { return b.arrived.Load() >= b.need })
+	if !ok {
+		b.failed.Store(true)
+	}
 }
 
 func (k *c05Token) runTurn(w *worker) {
@@ -48,9 +67,16 @@ func (k *c05Token) runTurn(w *worker) {
 		for time.Since(t0) < 20*time.Microsecond {
 		}
 	}
+	if k.barrier != nil {
+		k.barrier.wait()
+	}
 	if len(k.fanout) > 0 && k.fanoutSent.CompareAndSwap(false, true) {
 		for _, f := range k.fanout {
-			k.disp.schedule(f)
+			if k.localFanout {
+				w.reschedule(f)
+			} else {
+				k.disp.schedule(f)
+			}
 		}
 	}
 	again := atomic.AddInt32(&k.resched, -1) >= 0
@@ -69,10 +95,12 @@ type c05Knobs struct {
 	Dwell    int
 	Noise    int
 	CloseRace bool // close while pushes are still running
+	LocalBurst bool // the burst token fans out through the local ring (overflow past 256 slots)
+	Rendezvous int  // k tokens that must run simultaneously (0 = none)
 }
 
 func (k c05Knobs) String() string {
-	return fmt.Sprintf("workers=%d pushers=%d tokens=%d resched=%d burst=%d dwell=%d noise=%d closerace=%v", k.Workers, k.Pushers, k.Tokens, k.Resched, k.Burst, k.Dwell, k.Noise, k.CloseRace)
+	return fmt.Sprintf("workers=%d pushers=%d tokens=%d resched=%d burst=%d dwell=%d noise=%d closerace=%v localburst=%v rendezvous=%d", k.Workers, k.Pushers, k.Tokens, k.Resched, k.Burst, k.Dwell, k.Noise, k.CloseRace, k.LocalBurst, k.Rendezvous)
 }
 
 func TestVerif_C05(t *testing.T) {
@@ -91,6 +119,11 @@ func TestVerif_C05(t *testing.T) {
 			Dwell:   rng.Intn(3),
 			Noise:   rng.Intn(4),
 			CloseRace: rng.Intn(5) == 0,
+			LocalBurst: rng.Intn(2) == 0,
+		}
+		if rng.Intn(3) == 0 {
+			k.Rendezvous = 2 + rng.Intn(k.Workers-1) // 2..Workers
+			k.CloseRace = false
 		}
 		seed := rng.Int63()
 		c05RunCase(r, k, seed, c < 3)
@@ -138,6 +171,7 @@ func c05RunCase(r *verifrt.Run, k c05Knobs, seed int64, sample bool) {
 	}
 	if k.Burst > 0 {
 		b := mk(0)
+		b.localFanout = k.LocalBurst
 		for i := 0; i < k.Burst; i++ {
 			f := mk(1) // each fanned-out token re-pushes itself once through the local ring
 			b.fanout = append(b.fanout, f)
@@ -147,6 +181,29 @@ func c05RunCase(r *verifrt.Run, k c05Knobs, seed int64, sample bool) {
 		expectedTotal += int64(b.expected)
 	}
 	maxGlobal := 0
+	var barrier *c05Barrier
+	if k.Rendezvous > 0 {
+		// let the workers park first so that the pushes really have to wake them
+		verifrt.WaitUntil(5*time.Second, func() bool { return rq.parkedCount() == k.Workers })
+		barrier = &c05Barrier{need: int32(k.Rendezvous)}
+		for i := 0; i < k.Rendezvous; i++ {
+			tk := mk(0)
+			tk.barrier = barrier
+			expectedTotal += int64(tk.expected)
+			d.schedule(tk)
+		}
+		// the rendezvous is judged before the bulk traffic starts
+		if !verifrt.WaitUntil(25*time.Second, func() bool { return barrier.arrived.Load() >= barrier.need || barrier.failed.Load() }) || barrier.failed.Load() {
+			g := rq.globalLen()
+			parked := rq.parkedCount()
+			if g > 0 && parked > 0 {
+				r.Violation("ready-queue-worker-parked-while-work-queued", map[string]any{"knobs": k.String(), "seed": seed, "global": g, "parked": parked, "arrived": barrier.arrived.Load(), "need": barrier.need})
+			} else {
+				r.Inconclusive("C05 rendezvous watchdog without the structural predicate: global=%d parked=%d arrived=%d need=%d", g, parked, barrier.arrived.Load(), barrier.need)
+			}
+		}
+		r.Count("rendezvous_cases", 1)
+	}
 	for p := 0; p < k.Pushers; p++ {
 		wg.Add(1)
 		go func(p int) {
